@@ -17,12 +17,12 @@ if [ "${1:-}" = "replay" ]; then
   exit $?
 fi
 tier="${1:-thorough}"
-if [ "$tier" = "thorough" ]; then W="${VERIF_MIRI_WORKLOADS:-8}"; N="${VERIF_MIRI_SEEDS:-64}"; else W="${VERIF_MIRI_WORKLOADS:-2}"; N="${VERIF_MIRI_SEEDS:-8}"; fi
+if [ "$tier" = "thorough" ]; then W="${VERIF_MIRI_WORKLOADS:-8}"; N="${VERIF_MIRI_SEEDS:-64}"; else W="${VERIF_MIRI_WORKLOADS:-3}"; N="${VERIF_MIRI_SEEDS:-8}"; fi
 start=$(date +%s)
 ok=0
 # build once, then run the workloads PAR at a time (each interprets N schedule seeds in parallel)
-(cd /verif/sim && cargo +nightly miri run --offline --bin verifsim_mt -- miri-scenario 2 > /verif/target/miri-build.log 2>&1) || { echo "{\"ran\": false, \"reason\": \"miri build or smoke run failed, see /verif/target/miri-build.log\"}"; exit 2; }
-PAR="${VERIF_MIRI_PAR:-2}"
+(cd /verif/sim && cargo +nightly miri run --offline --bin verifsim_mt -- miri-noop > /verif/target/miri-build.log 2>&1) || { echo "{\"ran\": false, \"reason\": \"miri build failed, see /verif/target/miri-build.log\"}"; exit 2; }
+PAR="${VERIF_MIRI_PAR:-3}"
 rm -f /verif/target/miri-[0-9]*.log /verif/target/miri-[0-9]*.code
 i=1
 while [ $i -le "$W" ]; do
@@ -42,7 +42,7 @@ for i in $(seq 1 "$W"); do
   code=$(cat /verif/target/miri-$ws.code 2>/dev/null || echo 99)
   if [ "$code" -ne 0 ]; then
     failing=$(grep -o "FAILING SEED: [0-9]*" "$log" | grep -o "[0-9]*" | sort -n | tr '\n' ' ')
-    if grep -qE "VIOLATION property=C15|Undefined Behavior|Data race detected|data race" "$log"; then
+    if grep -qE "VIOLATION property=C15|Undefined Behavior|Data race detected|data race|deadlock" "$log"; then
       first=$(echo $failing | cut -d' ' -f1)
       python3 - "$ws" "$first" "$failing" "$log" <<'PY'
 import json,sys
@@ -53,7 +53,7 @@ for l in text.splitlines():
     if ("VIOLATION" in l or "error" in l.lower() or "race" in l.lower() or "FAILING" in l) and l not in keep:
         keep.append(l[:600])
 keep=keep[:20]
-cls="data-race-or-ub" if ("Undefined Behavior" in text or "ata race" in text) else "concurrent!=sequential"
+cls="data-race-or-ub" if ("Undefined Behavior" in text or "ata race" in text) else ("deadlock" if ("deadlock" in text and "VIOLATION property=C15" not in text) else "concurrent!=sequential")
 json.dump({"property":"C15","engine":"miri","class":cls,"workload_seed":int(ws),"miri_seed":int(first or 0),
  "failing_miri_seeds":[int(x) for x in failing.split()],"replay":"tools/miri_engine.sh replay %s %s"%(ws,first),
  "signature":"miri|%s|family=%d"%(cls,int(ws)%4),"log_excerpt":keep,"minimised":False,
